@@ -85,3 +85,88 @@ package tensor
 //@   requires [sep] it.track.arr != it.shape.arr && it.track.arr != it.strides.arr
 //@   ensures [reverse] it.reverse && !it.done && (forall i :: 0 <= i && i < n ==> it.track[i] == it.shape[i] - 1) && it.nextIndex == dot(it.strides, it.track, n)
 //@   assigns it.track[0:n], it.nextIndex, it.done, it.reverse
+
+// ---- vector-like fast path ----
+
+//@ func tensor.FlatIterator.singleNext
+//@   props C05
+//@   requires [dim] 0 <= it.veclikeDim && it.veclikeDim < len(it.track)
+//@   ensures [yield] result0 == old(it.nextIndex) && it.lastIndex == old(it.nextIndex) && result1 == nil
+//@   ensures [step] it.nextIndex == old(it.nextIndex) + 1 && it.track[it.veclikeDim] == old(it.track[it.veclikeDim]) + 1
+//@   ensures [done] it.done == (old(it.done) || it.track[it.veclikeDim] >= it.size)
+//@   assigns it.track[it.veclikeDim], it.nextIndex, it.lastIndex, it.done
+
+//@ func tensor.FlatIterator.singlePrevious
+//@   props C05
+//@   requires [dim] 0 <= it.veclikeDim && it.veclikeDim < len(it.track)
+//@   ensures [yield] result0 == old(it.nextIndex) && it.lastIndex == old(it.nextIndex) && result1 == nil
+//@   ensures [step] it.nextIndex == old(it.nextIndex) - 1 && it.track[it.veclikeDim] == old(it.track[it.veclikeDim]) - 1
+//@   ensures [done] it.done == (old(it.done) || it.track[it.veclikeDim] < 0)
+//@   assigns it.track[it.veclikeDim], it.nextIndex, it.lastIndex, it.done
+
+// ---- Next: selects the stepping function; abstractly it yields the next offset of the stream ----
+// The meta_ clauses relate the concrete iterator to the abstract stream (it_seq, it_len, ghost it_pos);
+// they follow from the one-step contracts above by induction on the position (listed meta-argument).
+
+//@ func tensor.FlatIterator.Next
+//@   props C05
+//@   requires [inv] !it.isScalar && !it.isVector ==> len(it.shape) >= 1 && itInv(it) && it.track.arr != it.shape.arr && it.track.arr != it.strides.arr
+//@   requires [vec] it.isVector ==> 0 <= it.veclikeDim && it.veclikeDim < len(it.track)
+//@   ensures [exhausted] old(it.done) ==> result0 == 0 - 1 && typeis(result1, "tensor.noopError") && it.nextIndex == old(it.nextIndex) && it.done
+//@   ensures [scalar] !old(it.done) && it.isScalar ==> result0 == 0 && result1 == nil && it.done
+//@   ensures [yield] !old(it.done) && !it.isScalar ==> result0 == old(it.nextIndex) && result1 == nil && it.lastIndex == old(it.nextIndex)
+//@   ensures [nd_inv] !old(it.done) && !it.isScalar && !it.isVector ==> itInv(it)
+//@   ensures [rep] (!it.isScalar && !it.isVector ==> len(it.shape) >= 1 && itInv(it) && it.track.arr != it.shape.arr && it.track.arr != it.strides.arr) && (it.isVector ==> 0 <= it.veclikeDim && it.veclikeDim < len(it.track))
+//@   ensures [meta_yield] !old(it.done) ==> old(gh("it_pos", it)) < it_len(it) && result0 == it_seq(it, old(gh("it_pos", it))) && gh("it_pos", it) == old(gh("it_pos", it)) + 1
+//@   ensures [meta_end] old(it.done) ==> old(gh("it_pos", it)) >= it_len(it) && gh("it_pos", it) == old(gh("it_pos", it))
+//@   assigns whole(it.track), it.nextIndex, it.lastIndex, it.done, gh("it_pos", it)
+
+// ---- masked stepping ----
+
+//@ func tensor.FlatMaskedIterator.NextValid
+//@   props C05 C15
+//@   let fi = it.FlatIterator
+//@   let p0 = gh("it_pos", it.FlatIterator)
+//@   requires [mask] len(it.mask) > 0
+//@   requires [pos] p0 >= 0
+//@   requires [range] forall p :: 0 <= p && p < it_len(fi) ==> 0 <= it_seq(fi, p) && it_seq(fi, p) < len(it.mask)
+//@   requires [next_pre] (!fi.isScalar && !fi.isVector ==> len(fi.shape) >= 1 && itInv(fi) && fi.track.arr != fi.shape.arr && fi.track.arr != fi.strides.arr) && (fi.isVector ==> 0 <= fi.veclikeDim && fi.veclikeDim < len(fi.track))
+//@   requires [sep] it.mask.arr != fi.track.arr
+//@   ensures [hit] result2 == nil ==> result0 == it_seq(fi, gh("it_pos", fi) - 1) && !it.mask[result0] && result1 == (fi.reverse ? 0 - (gh("it_pos", fi) - p0) : gh("it_pos", fi) - p0)
+//@   ensures [skipped] forall p :: p0 <= p && p < gh("it_pos", fi) - (result2 == nil ? 1 : 0) ==> it.mask[it_seq(fi, p)]
+//@   ensures [miss] result2 != nil ==> result0 == 0 - 1 && gh("it_pos", fi) >= it_len(fi) && result1 == (fi.reverse ? 0 - (gh("it_pos", fi) - p0) : gh("it_pos", fi) - p0)
+//@   assigns whole(fi.track), fi.nextIndex, fi.lastIndex, fi.done, gh("it_pos", fi)
+//@   config loopnext on
+//@   loop 0 invariant [count] count >= 0 && mult == (fi.reverse ? 0 - 1 : 1) && (forall p :: p0 <= p && p < p0 + count ==> it.mask[it_seq(fi, p)])
+//@   loop 0 invariant [cursor] err == nil ? (gh("it_pos", fi) == p0 + count + 1 && i == it_seq(fi, p0 + count) && p0 + count < it_len(fi)) : (gh("it_pos", fi) == p0 + count && p0 + count >= it_len(fi))
+//@   loop 0 invariant [next_pre] (!fi.isScalar && !fi.isVector ==> len(fi.shape) >= 1 && itInv(fi) && fi.track.arr != fi.shape.arr && fi.track.arr != fi.strides.arr) && (fi.isVector ==> 0 <= fi.veclikeDim && fi.veclikeDim < len(fi.track))
+
+//@ func tensor.FlatMaskedIterator.NextInvalid
+//@   props C05 C15
+//@   let fi = it.FlatIterator
+//@   let p0 = gh("it_pos", it.FlatIterator)
+//@   requires [mask] len(it.mask) > 0
+//@   requires [pos] p0 >= 0
+//@   requires [range] forall p :: 0 <= p && p < it_len(fi) ==> 0 <= it_seq(fi, p) && it_seq(fi, p) < len(it.mask)
+//@   requires [next_pre] (!fi.isScalar && !fi.isVector ==> len(fi.shape) >= 1 && itInv(fi) && fi.track.arr != fi.shape.arr && fi.track.arr != fi.strides.arr) && (fi.isVector ==> 0 <= fi.veclikeDim && fi.veclikeDim < len(fi.track))
+//@   requires [sep] it.mask.arr != fi.track.arr
+//@   ensures [hit] result2 == nil ==> result0 == it_seq(fi, gh("it_pos", fi) - 1) && it.mask[result0] && result1 == (fi.reverse ? 0 - (gh("it_pos", fi) - p0) : gh("it_pos", fi) - p0)
+//@   ensures [skipped] forall p :: p0 <= p && p < gh("it_pos", fi) - (result2 == nil ? 1 : 0) ==> !it.mask[it_seq(fi, p)]
+//@   ensures [miss] result2 != nil ==> result0 == 0 - 1 && gh("it_pos", fi) >= it_len(fi) && result1 == (fi.reverse ? 0 - (gh("it_pos", fi) - p0) : gh("it_pos", fi) - p0)
+//@   assigns whole(fi.track), fi.nextIndex, fi.lastIndex, fi.done, gh("it_pos", fi)
+//@   config loopnext on
+//@   loop 0 invariant [count] count >= 0 && mult == (fi.reverse ? 0 - 1 : 1) && (forall p :: p0 <= p && p < p0 + count ==> !it.mask[it_seq(fi, p)])
+//@   loop 0 invariant [cursor] err == nil ? (gh("it_pos", fi) == p0 + count + 1 && i == it_seq(fi, p0 + count) && p0 + count < it_len(fi)) : (gh("it_pos", fi) == p0 + count && p0 + count >= it_len(fi))
+//@   loop 0 invariant [next_pre] (!fi.isScalar && !fi.isVector ==> len(fi.shape) >= 1 && itInv(fi) && fi.track.arr != fi.shape.arr && fi.track.arr != fi.strides.arr) && (fi.isVector ==> 0 <= fi.veclikeDim && fi.veclikeDim < len(fi.track))
+
+//@ func tensor.FlatMaskedIterator.NextValidity
+//@   props C05 C15
+//@   let fi = it.FlatIterator
+//@   requires [mask] len(it.mask) > 0
+//@   requires [pos] gh("it_pos", it.FlatIterator) >= 0
+//@   requires [range] forall p :: 0 <= p && p < it_len(fi) ==> 0 <= it_seq(fi, p) && it_seq(fi, p) < len(it.mask)
+//@   requires [next_pre] (!fi.isScalar && !fi.isVector ==> len(fi.shape) >= 1 && itInv(fi) && fi.track.arr != fi.shape.arr && fi.track.arr != fi.strides.arr) && (fi.isVector ==> 0 <= fi.veclikeDim && fi.veclikeDim < len(fi.track))
+//@   requires [sep] it.mask.arr != fi.track.arr
+//@   ensures [valid] result2 == nil ==> result0 == it_seq(fi, old(gh("it_pos", fi))) && result1 == !it.mask[result0] && gh("it_pos", fi) == old(gh("it_pos", fi)) + 1
+//@   ensures [end] result2 != nil ==> result0 == 0 - 1 && !result1 && gh("it_pos", fi) == old(gh("it_pos", fi))
+//@   assigns whole(fi.track), fi.nextIndex, fi.lastIndex, fi.done, gh("it_pos", fi)
